@@ -196,6 +196,9 @@ func c08Exec(sc c08Scenario, kind string, trigger int, timeoutFlavour bool, clie
 				atomic.AddInt32(&run.startsAfterFire, 1)
 			}
 			run.hit("sleepElapse", "sleepElapse", false)
+		} else if !sc.waitConn {
+			// before anything of the request exists (the context check at the top of roundTrip)
+			run.hit("", "start", true)
 		}
 		return nil
 	})
@@ -431,7 +434,9 @@ func c08Exec(sc c08Scenario, kind string, trigger int, timeoutFlavour bool, clie
 	} else {
 		o.conn = "new"
 	}
-	if sc.waitConn {
+	if sc.waitConn || (sc.reused && o.firedNm == "start") {
+		// the request never claimed a connection: whether the follow-up finds one in the pool is
+		// decided by the other requests of the scenario, not by this one
 		o.conn = "?"
 	}
 	if sc.proto == "h3" && strings.HasPrefix(o.firedNm, "dial") {
@@ -528,7 +533,11 @@ func c08Judge(o c08Obs) (ok bool, failed []string, class string) {
 	sleepSym, h3Sym, other := false, false, false
 	for _, f := range failed {
 		switch {
-		case o.sc.maxRetries > 0 && (strings.HasPrefix(f, "not-prompt") || strings.HasPrefix(f, "attempts-started-after-cancel")):
+		case o.sc.maxRetries > 0 && strings.HasPrefix(f, "attempts-started-after-cancel"):
+			sleepSym = true
+		case o.sc.maxRetries > 0 && strings.HasPrefix(f, "not-prompt") && !o.hung &&
+			o.elapsed <= time.Duration(o.sc.maxRetries)*o.sc.interval+time.Second:
+			// late by no more than the remaining retry waits
 			sleepSym = true
 		case o.sc.proto == "h3" && (f == "request-body-not-closed" || strings.HasPrefix(f, "follow-up-failed:")):
 			h3Sym = true
@@ -608,7 +617,11 @@ func c08ScriptLane(t *testing.T, proto string, lane string) {
 	rnd := s.Rand()
 	cnt := map[string]int{}
 	count := func(k string) { cnt[k]++; s.Count(k) }
+	hung := false
 	record := func(o c08Obs, id string, n int) {
+		if o.hung {
+			hung = true // the stuck call keeps its goroutines: later censuses would be polluted
+		}
 		if !o.fired {
 			// the exchange ended before reaching the point (must not happen: same script)
 			s.Observe(id, false, "", true, id, fmt.Sprintf("injection point %d of %d never reached; events=%v", o.trigger, n, o.names))
@@ -635,6 +648,9 @@ func c08ScriptLane(t *testing.T, proto string, lane string) {
 		s.Case(line, impl, ok, class, true, human)
 	}
 	for _, sc := range c08Scenarios(proto) {
+		if hung {
+			break
+		}
 		// dry run: the exchange completes and tells how many injection points it has
 		dry := c08Exec(sc, "canceled", -1, false, 0)
 		if dry.hung || dry.res != "ok" || dry.follow != nil {
@@ -684,6 +700,9 @@ func c08ScriptLane(t *testing.T, proto string, lane string) {
 				picks = []int{0}
 			}
 			for _, k := range picks {
+				if hung {
+					break
+				}
 				o := c08Exec(sc, kind, k, false, 0)
 				record(o, fmt.Sprintf("%s/%s/%s/%d", proto, sc.name, kind, k), n)
 			}
@@ -698,12 +717,18 @@ func c08ScriptLane(t *testing.T, proto string, lane string) {
 					picks = append(picks, k)
 				}
 			} else {
-				picks = []int{rnd.Intn(n), n - 1}
+				picks = []int{1 + rnd.Intn(n-1), n - 1}
 				if picks[0] == picks[1] {
 					picks = picks[:1]
 				}
 			}
 			for _, k := range picks {
+				if hung {
+					break
+				}
+				if k == 0 {
+					continue // "start" is no place to stall: nothing of the request exists yet
+				}
 				to := 250 * time.Millisecond
 				o := c08Exec(sc, "deadline", k, true, to)
 				if o.early && !o.hung {
@@ -722,7 +747,7 @@ func c08ScriptLane(t *testing.T, proto string, lane string) {
 		}
 	}
 	// cancellation in the MIDDLE of a long retry wait: the wall-clock face of the retry-sleep clause
-	if proto == "h1" || verifh.Thorough() {
+	if (proto == "h1" || verifh.Thorough()) && !hung {
 		sc := c08Scenario{name: "retry-midsleep", proto: proto, down: 1, failFirst: 1, maxRetries: 1,
 			interval: 2500 * time.Millisecond, midSleep: 40 * time.Millisecond}
 		kinds := []string{"canceled"}
@@ -730,10 +755,10 @@ func c08ScriptLane(t *testing.T, proto string, lane string) {
 			kinds = append(kinds, "deadline")
 		}
 		for _, kind := range kinds {
-			// injectable events: dialStart, dialDone, wroteHdr, sleepStart(3), …
-			idx := 3
+			// injectable events: start, dialStart, dialDone, [hsDone,] wroteHdr, sleepStart, …
+			idx := 4
 			if proto == "h2" {
-				idx = 4
+				idx = 5
 			}
 			o := c08Exec(sc, kind, idx, false, 0)
 			if o.firedNm != "sleepStart" || o.early {
@@ -745,7 +770,7 @@ func c08ScriptLane(t *testing.T, proto string, lane string) {
 		}
 	}
 	must := []string{"dry-ok", "point=dialStart", "point=dialDone", "point=wroteHdr", "point=wrote", "point=wroteLast",
-		"point=gotHeaders", "point=gotBody", "point=sleepStart", "point=hdrSent", "point=sent", "res=canceled", "res=deadline", "conn=reuse", "body=closed1", "body=none"}
+		"point=gotHeaders", "point=gotBody", "point=sleepStart", "point=hdrSent", "point=sent", "point=start", "res=canceled", "res=deadline", "conn=reuse", "body=closed1", "body=none"}
 	must = append(must, "client-timeout")
 	switch proto {
 	case "h1":
@@ -754,6 +779,9 @@ func c08ScriptLane(t *testing.T, proto string, lane string) {
 		must = append(must, "point=hsDone", "rst-seen")
 	case "h3":
 		must = append(must, "rst-seen")
+	}
+	if hung {
+		must = nil // the lane stopped at the first call that never returned (reported above)
 	}
 	for _, want := range must {
 		if cnt[want] == 0 {
